@@ -172,6 +172,10 @@ def install():
 
 
 OPS = ("pg", "subtree", "dp", "prg", "pg", "relabel", "alpha", "alpha_clear", "clear", "switch")
+OPS_TWIN = OPS + ("twin", "twin")
+# whole-tree and sub-tree sweeps in a row, never a cache clear: what one sweep returns (and the next edits in place) is
+# still referenced from the cached proposal distributions
+OPS_SWEEPS = ("pg", "subtree", "pg", "subtree", "dp", "relabel", "pg")
 
 
 OPS_TINY = ("pg", "alpha", "pg", "subtree", "alpha", "dp", "pg", "relabel")
@@ -181,20 +185,24 @@ ALPHAS = {
     # agree to many digits - a cache key must tell all of them apart
     "tiny": [1e-10, 3e-9, 6.5e-9, 2e-3, 1e-10 * (1 + 1e-6), 4e-9],
 }
+ALPHAS["twin"] = ALPHAS["sweeps"] = ALPHAS["ordinary"]
 
 
 @st.composite
 def _history(draw, alphas="ordinary"):
-    ops = OPS if alphas == "ordinary" else OPS_TINY
+    ops = OPS_TINY if alphas == "tiny" else (OPS_TWIN if alphas == "twin" else (OPS_SWEEPS if alphas == "sweeps" else OPS))
     return dict(
         alphas=alphas,
         ops=[[draw(st.sampled_from(ops)), draw(st.integers(0, 5))] for _ in range(draw(st.integers(4, 14)))],
-        **draw(_history_base())
+        **draw(_history_base(alphas == "sweeps"))
     )
 
 
 @st.composite
-def _history_base(draw):
+def _history_base(draw, sweeps=False):
+    if sweeps:
+        return dict(kind="history", n=draw(st.integers(3, 4)), dims=draw(st.sampled_from([1, 2])), G=draw(st.sampled_from([5, 8])), values=draw(gen.st_values_spec(regimes=("moderate", "ties"), max_scale=2.0)),
+                    outlier_prior=draw(st.sampled_from([0.1, 0.3])), kernel=draw(st.sampled_from(["semi", "fully"])), N=draw(st.integers(3, 8)), seed=draw(st.integers(0, 2 ** 31 - 1)))
     return dict(
         kind="history",
         n=draw(st.integers(3, 6)),
@@ -220,7 +228,7 @@ def _stream(draw):
 def strategy(ctx, shard=0):
     if shard % 4 == 3:
         return _stream()
-    return _history("tiny" if shard % 4 == 1 else "ordinary")
+    return _history("tiny" if shard % 4 == 1 else ("twin" if shard % 8 == 2 else ("sweeps" if shard % 8 == 6 else "ordinary")))
 
 
 def budget(ctx):
@@ -268,9 +276,11 @@ def _run_history(case):
     rng = np.random.default_rng(case["seed"])
     kinds = ["semi", "fully", "bootstrap"]
     state = dict(kernel=case["kernel"])
+    perm = RootPermutationDistribution()
+    rng2 = np.random.default_rng(case["seed"] + 1)
 
-    def samplers():
-        k = kernel_class(state["kernel"])(td, rng, outlier_proposal_prob=0.1 if out else 0.0, perm_dist=RootPermutationDistribution())
+    def samplers(rng=rng):
+        k = kernel_class(state["kernel"])(td, rng, outlier_proposal_prob=0.1 if out else 0.0, perm_dist=perm)
         return dict(pg=ParticleGibbsTreeSampler(k, rng, num_particles=case["N"]), subtree=ParticleGibbsSubtreeSampler(k, rng, num_particles=case["N"]), dp=DataPointSampler(td, rng, outliers=out), prg=PruneRegraphSampler(td, rng))
 
     S = samplers()
@@ -294,6 +304,14 @@ def _run_history(case):
                     clear_proposal_dist_caches()
                 else:
                     classes.append("alpha-change-without-clear")
+            elif op == "twin":
+                # a second, identically configured kernel with its OWN generator (same distribution objects, no cache
+                # clear): whatever the caches hand it, its sweep must not draw from the first kernel's generator
+                before_state = rng.bit_generator.state
+                tree = samplers(rng2)["pg"].sample_tree(tree)
+                if rng.bit_generator.state != before_state:
+                    raise Violation("memo/foreign-generator", "a particle-Gibbs sweep run through a second kernel with its own generator advanced the FIRST kernel's generator: cached objects built for one kernel were handed to the other", dict(kernel=state["kernel"]))
+                classes.append("twin-kernel-with-own-generator")
             elif op == "clear":
                 clear_proposal_dist_caches()
             elif op == "switch":
